@@ -1095,6 +1095,18 @@ impl World {
         if !crate::lib_api::unsafe_like_ok(&info, self.chain.last(), ml) {
             return Ok(Exec::Skipped);
         }
+        if let MoveLike::TryUnchecked(r) = ml {
+            if r.kind == rm::K_NULL {
+                // TryUnchecked(NULL): accepted exactly when the mover is not in check (seeded change
+                // S-C13-23: a legality pre-test that masks a checker standing on a8, the null move's
+                // nominal square). Chains holding a null move are kept out of C17 and C02 runs (see
+                // `op_push_unchecked`).
+                if self.on(C17) || self.on(C02) {
+                    return Ok(Exec::Skipped);
+                }
+                self.stats.hit(if info.in_check { "probe.null-move-offered-while-in-check" } else { "probe.null-move-pushed-into-chain" });
+            }
+        }
         let den = denote(&info.pos, &info.legal, ml);
         let before = Full::of(self.chain.last());
         let len0 = self.rc.len();
@@ -1158,7 +1170,9 @@ impl World {
                     }
                 }
                 self.note_move_kind(&applied, true);
-                self.note_geometry(&info.pos, &rmove_of(&applied));
+                if applied != Move::NULL {
+                    self.note_geometry(&info.pos, &rmove_of(&applied));
+                }
                 if self.last_owner == 1 {
                     self.stats.hit("probe.push-right-after-pop");
                 }
@@ -1231,6 +1245,8 @@ impl World {
     /// touching the board at all, which is C02's and C13's concern.
     pub(crate) fn names_pseudo_legal(info: &Info, ml: &MoveLike) -> bool {
         match ml {
+            // (a refused TryUnchecked(NULL) has been through make and un-make of the null move)
+            MoveLike::TryUnchecked(m) if m.kind == rm::K_NULL => true,
             MoveLike::Move(m) | MoveLike::TryUnchecked(m) => info.pseudo.contains(m),
             MoveLike::UciMove { src, dst, promo } => info
                 .pseudo
@@ -1844,6 +1860,27 @@ impl World {
                 "equality",
                 format!("a {} does not compare equal to its original", if kind % 2 == 0 { "clone" } else { "chain overwritten with clone_from" }),
             ));
+        }
+        if self.on(C17) {
+            // the statement's own round trip, on the copy itself: whatever route produced a chain,
+            // its UCI list replayed from its startpos() rebuilds an equal chain (seeded change
+            // S-C17-23: a clone_from that keeps the target's start position)
+            let text = c.uci().to_string();
+            let rebuilt = Board::try_from(*c.startpos())
+                .map_err(|e| e.to_string())
+                .and_then(|b| MoveChain::from_uci_list(b, &text).map_err(|e| e.to_string()));
+            let what = if kind % 2 == 0 { "clone" } else { "chain overwritten with clone_from" };
+            match rebuilt {
+                Ok(mut r) => {
+                    r.reset_outcome(*c.outcome());
+                    if !(r == c) {
+                        return Err(self.fail(C17, "uci-roundtrip", format!("a {}: its UCI list {:?} replayed from its startpos() rebuilds a chain that does not compare equal", what, text)));
+                    }
+                }
+                Err(e) => {
+                    return Err(self.fail(C17, "uci-roundtrip", format!("a {}: its UCI list {:?} does not replay from its startpos(): {}", what, text, e)));
+                }
+            }
         }
         let old = std::mem::replace(&mut self.chain, c);
         self.spy = s;
